@@ -80,18 +80,20 @@ Print Assumptions C13_tie_publish_qos12.
 
 (* ------------------------------------------------------------------------------------------
    The same property on the second-generation session model (coq/theories/Session2): the client's
-   output queue and a transport that may refuse writes are modelled; events distinguish a packet
-   HANDED to the connection from a packet WRITTEN; reconnect() drops what is still queued. *)
+   output queue and a transport that ACCEPTS writes, REFUSES them (BlockingIOError) or FAILS HARD (OSError: the
+   connection is torn down inside the write) are modelled; events distinguish a packet
+   HANDED to the connection from a packet WRITTEN; reconnect() drops what is still queued.
+   [no_fail ops]: the history contains no hard write failure ([OTransport TFail]). *)
 From PahoV Require Import Session2.Model Session2.Check Session2.Statements Session2.FifoProofs Session2.C13Transfer Session2.C13Proofs.
 
 (* publish() order of the hand-overs per connection *)
 Theorem C13_order_handed_with_blocking : forall c ops,
-  cfg_ok c = true -> conforming c ops = true -> c13_handed_ok c (optrace c ops) = true.
-Proof. exact c13_handed_proved. Qed.
+  cfg_ok c = true -> conforming c ops = true -> no_fail ops = true -> c13_handed_ok c (optrace c ops) = true.
+Proof. exact c13_handed_calm_proved. Qed.
 Print Assumptions C13_order_handed_with_blocking.
 
 (* publish() order of the writes per connection (FIFO queue) *)
 Theorem C13_order_written_with_blocking : forall c ops,
-  cfg_ok c = true -> conforming c ops = true -> c13_tx_ok c (optrace c ops) = true.
-Proof. exact c13_tx_proved. Qed.
+  cfg_ok c = true -> conforming c ops = true -> no_fail ops = true -> c13_tx_ok c (optrace c ops) = true.
+Proof. exact c13_tx_calm_proved. Qed.
 Print Assumptions C13_order_written_with_blocking.
